@@ -15,7 +15,7 @@ from fractions import Fraction
 
 PIDNUM = {'const': 0, 't': 1, 't2': 2, 'abs': 3, 'sign': 4, 'step': 5, 'recip': 6, 'recip2': 7, 'tstep': 8, 'expu': 9,
           'sincn': 10, 'sincu': 11, 'sincn2': 12, 'rect': 13, 'tri': 14, 'trap': 15, 'trap0': 16, 'reciplin': 17,
-          'sech': 18, 'csch': 19, 'tanh': 20, 'cexp': 21, 'tratio': 22}
+          'sech': 18, 'csch': 19, 'tanh': 20, 'cexp': 21, 'tratio': 22, 'tration': 23}
 OIDNUM = {'delta0': 0, 'delta1': 1, 'delta2': 2, 'twoexp': 3, 'gauss': 4, 'gausspi': 5, 'texpu1': 6, 'texpu2': 7,
           'sgnexp': 8, 'ttwoexp': 9, 'lorentz': 10}
 PARNUM = {'cval': 1, 'c0': 2, 'c1': 3, 'alpha': 4, 'a': 2, 'r': 2, 'c': 3, 'ta': 5, 'tb': 6}
@@ -151,7 +151,7 @@ def base_src(kind, name, ps, arg):
             return 'trap(%s, %s)' % (arg, src_num(ps['alpha']))
         if name == 'reciplin':
             return '1/(%s*%s + %s)' % (src_num(ps['c1']), A, src_num(ps['c0']))
-        if name == 'tratio':
+        if name in ('tratio', 'tration'):
             return '%s/(%s*%s - %s*j)' % (A, src_num(ps['ta']), A, src_num(ps['tb']))
         if name == 'cexp':
             raise ValueError('cexp is written through SMo')
